@@ -615,6 +615,8 @@ where
     if ctx.param == 18 {
         diagnostics::<_, P>(m, &t, src, ctx, what)?;
         float_probability_view::<_, P>(m, &t, &[n, n + 1, usize::MAX], what)?;
+        // a reference to a model is a model (blanket impl for `&M`): its diagnostics are the model's
+        diagnostics::<&ContiguousCategoricalEntropyModel<Pr, Vec<Pr>, P>, P>(&m, &t, src, ctx, &format!("reference to {what}"))?;
         float_probability_view::<_, P>(&m.to_generic_encoder_model(), &t, &[n, usize::MAX], &format!("generic encoder model of {what}"))?;
         // the non-contiguous decoder model overrides entropy_base2 and floating_point_symbol_table; the
         // encoder model has an inherent entropy_base2
